@@ -773,6 +773,47 @@ def part_long(ctx, env):
 
 
 
+def part_reuse(ctx, env):
+    """(h) a metric OBJECT the caller keeps: after other library calls that took it as an argument - pcDelta with explicit and with default bins,
+    also a pcDelta call that RAISED half-way (a None among the sequences) - its matrices are still the true weighted edit distances, also
+    beyond 24 (the last default bin edge of pcDelta) (seeded change C08-r8m3: a cut-off set on the caller's metric and not taken back)."""
+    rng, ds = ctx.rng, env['ds']
+    plans, reqs = [], []
+    for t in range(6 if ctx.quick else 60):
+        w = (1, 1, 1) if t % 2 == 0 else draw_weights(rng)
+        xs = [''.join(rng.choice('ACD') for _ in range(rng.randint(0, 6))) for _ in range(4)] + ['A' * rng.randint(30, 45), 'C' * rng.randint(30, 45)]
+        ys = ['D' * rng.randint(28, 50), '', 'ACD', 'A' * 33]
+        rng.shuffle(xs)
+        plans.append(dict(xs=xs, ys=ys, w=w))
+        reqs += [('api_cdist_wlev', [w[0], w[1], w[2], xs, ys]), ('api_pdist_wlev', [w[0], w[1], w[2], xs])]
+    outs = ctx.oracle.run_parallel(reqs, nproc=4)
+    for n, P in enumerate(plans):
+        xs, ys, w = P['xs'], P['ys'], P['w']
+        cd, pd_ = _arr(outs[2 * n], (len(xs), len(ys))), _arr(outs[2 * n + 1], (len(outs[2 * n + 1]),))
+        metric = env['Levenshtein']() if (w == (1, 1, 1) and n % 4 == 0) else env['WeightedLevenshtein'](*w)
+        before = [('pcDelta(A, metric=m)', lambda: ds.pcDelta(list(xs), metric=metric)),
+                  ('pcDelta(A, B, metric=m, bins=range(5))', lambda: ds.pcDelta(list(xs), list(ys), metric=metric, bins=np.arange(5))),
+                  ('pcDelta(A + [None], metric=m) [raises]', lambda: ds.pcDelta(list(xs) + [None], metric=metric)),
+                  ('pcDelta(A, [None, 3], metric=m) [raises]', lambda: ds.pcDelta(list(xs), [None, 3], metric=metric))]
+        rng.shuffle(before)
+        done = []
+        for name, thunk in before[:rng.randint(1, 4)]:
+            call_impl(thunk)
+            done.append(name)
+        ctx.count('metric object reused after %d other calls' % len(done))
+        if any('raises' in d for d in done):
+            ctx.count('metric object reused after a call that raised')
+        ctx.case(nontrivial_key=('reuse', tuple(xs), tuple(ys), w, tuple(done)))
+        for call, site, thunk, exp in (('m.calc_cdist_matrix(A, B)', 'metric.calc_cdist_matrix', lambda: metric.calc_cdist_matrix(list(xs), list(ys)), cd),
+                                       ('m.calc_pdist_vector(A)', 'metric.calc_pdist_vector', lambda: metric.calc_pdist_vector(list(xs)), pd_)):
+            d = _diff(call_impl(thunk), exp)
+            if d is not None:
+                ctx.violation('property', '%s with m = %s%s AFTER %s on A = %s, B = %s: %s' % (call, type(metric).__name__, w, done, xs, ys, d),
+                              dict(A=xs, B=ys, weights=w, after=done, call=call, difference=d), site=site)
+        if len(ctx.violations) > 6:
+            return
+
+
 def run_balanced(ctx, reqs, nproc):
     """ctx.oracle.run_parallel with the requests dealt out by decreasing cost (the model's cost grows with the product of the string
     lengths and, on unary nat, with the values): the few long collections no longer end up in one chunk.  Same requests, same answers."""
@@ -1211,7 +1252,7 @@ def run(ctx):
     import pyrepseq as pkg
     import scipy.cluster.hierarchy as hc
     env = dict(ds=ds, pkg=pkg, Levenshtein=Levenshtein, WeightedLevenshtein=WeightedLevenshtein, RL=RL, PL=PL, hc=hc, ssd=ssd)
-    for part in (part_sessions, part_large, part_scaled, part_long):
+    for part in (part_sessions, part_large, part_scaled, part_long, part_reuse):
         part(ctx, env)
         if len(ctx.violations) > 6:
             return
